@@ -157,7 +157,32 @@ def canary_directed(chk: Check) -> None:
             if bad:
                 chk.witness("C18/data-became-markup", dict(detail, injected=bad[:4], output=out[:600]))
             chk.case(("canary-directed", shape[:24], expr), detail if expr == "s1" and shape.startswith("<div") else None)
-        tpl = '<ul><li tal:repeat="x seq" tal:content="x">i</li><li tal:repeat="y seq" tal:attributes="title y">i</li></ul>'
+    # the same on every kind of element: the ones whose content an HTML parser reads as raw text or as
+    # replaceable character data (a value there has to close the element before it can become markup), void and
+    # table elements, upper-case and namespaced names
+    for tag in ("script", "style", "textarea", "title", "pre", "xmp", "noscript", "iframe", "option", "td", "a", "SCRIPT",
+                "Style", "svg:text", "code", "template"):
+        closer = "</%s><xss-7 onx-7=1>" % tag
+        tvals = {"s1": closer, "d1": {"k": "]]>" + closer}, "seq": [closer, "<!--" + closer, "&" + closer]}
+        for shape in ('<%T tal:content="%s">x</%T>', '<%T><b tal:replace="%s">x</b></%T>', '<%T tal:attributes="title %s">x</%T>',
+                      '<%T tal:content="string:a ${%s} b">x</%T>', '<%T tal:define="v %s" tal:content="v">x</%T>',
+                      '<%T tal:repeat="r seq" tal:content="r">x</%T>', '<%T tal:content="nosuch | %s">x</%T>',
+                      '<%T tal:condition="%s" tal:content="%s">x</%T>'):
+            for expr in ("s1", "d1/k", "seq/1"):
+                tpl = "<html><head></head><body>%s</body></html>" % shape.replace("%T", tag).replace("%s", expr)
+                detail = {"sub": "canary-directed-elements", "case_seed": chk.seed, "page": tpl}
+                try:
+                    out = expand(tpl, new_context(tvals))
+                except Exception as e:
+                    report_exception(chk, e, detail)
+                    continue
+                chk.count("canary_directed_element_cases")
+                bad = injected(talref.events(out))
+                if bad or "<xss-7" in out:
+                    chk.witness("C18/data-became-markup", dict(detail, injected=bad[:4], output=out[:600],
+                                                               why="the value's own '<' reached the output unescaped"))
+                chk.case(("canary-directed-elements", tag.lower(), shape[4:24]), detail if expr == "s1" and tag == "script" else None)
+    tpl = '<ul><li tal:repeat="x seq" tal:content="x">i</li><li tal:repeat="y seq" tal:attributes="title y">i</li></ul>'
     out = expand(tpl, new_context(vals))
     if injected(talref.events(out)):
         chk.witness("C18/data-became-markup", {"sub": "canary-directed", "page": tpl, "output": out[:600]})
